@@ -50,6 +50,36 @@ def same_geometry_rate(est, fpr):
     return None
 
 
+def same_geometry_params(est, fpr, which=0):
+    """another (est_elements, rate) pair that derives exactly the same (number_bits, number_hashes): the rate nudged (which even) or
+    est_elements +-1 with the rate that lands on the same number of bits (which odd); None if there is none"""
+    import math
+    from probables import BloomFilter
+
+    if which % 2 == 0 or est != int(est):
+        p2 = same_geometry_rate(est, fpr)
+        return None if p2 is None else (est, p2)
+    try:
+        ref = BloomFilter(est, fpr)
+    except Exception:  # noqa
+        return None
+    m, k = ref.number_bits, ref.number_hashes
+    for n2 in ((est + 1, est - 1) if which % 4 == 1 else (est - 1, est + 1)):
+        if n2 < 1:
+            continue
+        p2 = math.exp(-(m - 0.5) * 0.4804530139182 / n2)
+        if not 0 < p2 < 1:
+            continue
+        try:
+            o = BloomFilter(n2, p2)
+        except Exception:  # noqa
+            continue
+        if (o.number_bits, o.number_hashes) == (m, k):
+            return n2, p2
+    p2 = same_geometry_rate(est, fpr)
+    return None if p2 is None else (est, p2)
+
+
 OPERAND_VARIANTS = ["same", "same", "same", "reload", "hex", "file_ondisk", "zero", "handle2"]
 
 
